@@ -1,8 +1,10 @@
-(** source tie for C19: MaxVarint and the class thresholds of AppendVarint / SizeVarint *)
+(** source tie for C19: the named constant MaxVarint *)
 From Coq Require Import List NArith.
 From PatVerif Require Import Model.Quicwire Gen.Src.
 Import ListNotations. Open Scope N_scope.
 Ltac t := vm_compute; first [reflexivity | exact I | repeat split; reflexivity].
 Example tie_max : tie s_max_varint (fun v => v = max_varint). Proof. t. Qed.
-Example tie_thresholds : tie s_varint_thresholds (fun v => v = [63; 16383; 1073741823; max_varint]). Proof. t. Qed.
-Example tie_size_thresholds : tie s_varint_size_thresholds (fun v => v = [63; 16383; 1073741823; max_varint]). Proof. t. Qed.
+(** the anonymous literals in the case clauses of AppendVarint / SizeVarint are NOT tied: a rewrite that classifies by
+    bit length (limits 6, 14, 30, 62) puts other numbers at the same places without changing any threshold — an
+    unnamed literal has no fixed meaning; the thresholds are decided by the correspondence runs (exhaustive below 2^20
+    and at every class boundary) *)
